@@ -280,6 +280,11 @@ func (k *keyEvaluator) eval(v ssa.Value, env kenv, depth int, busy map[ssa.Value
 	case *ssa.Call:
 		return k.evalCall(x, 0, env, depth, busy)
 	case *ssa.Slice:
+		if x.High != nil {
+			if h, ok := constInt(x.High); ok && h == 0 {
+				return lit("") // buf[:0]: an empty slice (sharing buf's storage, see ADP4)
+			}
+		}
 		if x.Low == nil && x.High == nil {
 			if al, ok := x.X.(*ssa.Alloc); ok {
 				if t, ok := k.arrayLiteral(al, env, depth, busy); ok {
